@@ -6,6 +6,7 @@ import (
 	"encoding/hex"
 	"encoding/json"
 	"fmt"
+	ethtypes "github.com/ethereum/go-ethereum/core/types"
 	"io"
 	"math/big"
 	"os"
